@@ -49,6 +49,8 @@ func verifRoot() string {
 	return "/verif"
 }
 
+var knownFailing = map[string]bool{}
+
 func cmdCheck(args []string) int {
 	fs := flag.NewFlagSet("check", flag.ExitOnError)
 	prop := fs.String("prop", "", "property id")
@@ -82,6 +84,17 @@ func cmdCheck(args []string) int {
 	if err != nil {
 		fmt.Println("UNDECIDED property=" + *prop + " contract files: " + err.Error())
 		return 2
+	}
+	// obligations recorded as known findings are never used as assumptions for later clauses of the same function
+	knownFailing = map[string]bool{}
+	{
+		var kf FindingsFile
+		if b, err := os.ReadFile(filepath.Join(root, "known_findings.json")); err == nil {
+			_ = json.Unmarshal(b, &kf)
+		}
+		for _, k := range kf.Known {
+			knownFailing[k.Obligation] = true
+		}
 	}
 	fns := p.allFunctions()
 	if *verbose {
